@@ -3,9 +3,9 @@
 Models: coq/LRU/Model.v (list level), coq/LRU/Heap.v (pointer level: heap of nodes, sentinels, dict)
 Theorems: coq/Props/C18.v (proofs in LRU/Proofs.v, LRU/HeapProofs.v - `lru_refines`)
 Correspondence: (1) LRUCache API on all op sequences up to a length bound x capacities, plus random long
-ones, against the list-level model; (1h) the FULL pointer structure of the real object (node order forwards and
-backwards, dict -> node, every CacheNode's prev/next incl. unreachable ones) after every call against the heap
-model; (2) cached_template identity pattern over histories x cache sizes, incl. differently configured Engine
+ones, against the list-level model; (1h) the pointer structure of the real object after EVERY call ((key, value)
+of the nodes walking `next` from head, keys walking `prev` from tail, which listed node each dict key maps to - by
+position, independent of object identities; unreachable objects are not compared) against the heap model; (2) cached_template identity pattern over histories x cache sizes, incl. differently configured Engine
 instances; (3) component renders over more inline templates than the cache holds.
 Direct oracles: OrderedDict reference LRU step by step (which key leaves at each overflow) + recency order read
 off through the public API (fresh insertions evict in LRU order); cached_template result renders like a fresh
@@ -15,6 +15,7 @@ import collections
 import itertools
 
 import common as C
+import c18_util as U
 from common import cN, cZ, clist, copt
 
 IMPORTS = "From DJC Require Import Lib.Base LRU.Model."
@@ -49,52 +50,33 @@ def enc_key(k):
 
 
 class Snapshotter:
-    """Reads the pointer structure of a real LRUCache: CacheNode objects get the ids the heap model gives them
-    (head 0, tail 1, then 2, 3, .. in creation order; every object ever seen is kept alive here)."""
+    """Reads the pointer structure of a real LRUCache, in a form that does not depend on object identities:
+       fwd  = (key, value) of the nodes met walking `next` from head.next up to the tail sentinel,
+       bwd  = keys of the nodes met walking `prev` from tail.prev up to the head sentinel,
+       dict = for every key of `cache`: the position, in the forward walk, of the node object it maps to (None: not on the list)."""
 
     def __init__(self, c):
         self.c = c
-        self.objs = [c.head, c.tail]
-        self.ids = {id(c.head): 0, id(c.tail): 1}
         self.broken = None
-
-    def sid(self, node):
-        if node is None:
-            return None
-        if id(node) not in self.ids:
-            self.ids[id(node)] = len(self.objs)
-            self.objs.append(node)
-        return self.ids[id(node)]
 
     def snap(self):
         c = self.c
         try:
-            for node in c.cache.values():      # a new node is indexed by the dict in the call that created it
-                self.sid(node)
-            fwd, n, steps = [], c.head.next, 0
-            while n is not None and n is not c.tail and steps <= len(self.objs) + 2:
-                fwd.append(self.sid(n))
-                n, steps = n.next, steps + 1
-            bwd, n, steps = [], c.tail.prev, 0
-            while n is not None and n is not c.head and steps <= len(self.objs) + 2:
-                bwd.append(self.sid(n))
-                n, steps = n.prev, steps + 1
-            d = sorted(((enc_key(k), self.sid(node)) for k, node in c.cache.items()))
-            return fwd, bwd, d
+            bound = len(c.cache) + 3
+            fwd_nodes, n = [], c.head.next
+            while n is not None and n is not c.tail and len(fwd_nodes) <= bound:
+                fwd_nodes.append(n)
+                n = n.next
+            bwd, n = [], c.tail.prev
+            while n is not None and n is not c.head and len(bwd) <= bound:
+                bwd.append(enc_key(n.key))
+                n = n.prev
+            pos = {id(x): i for i, x in reversed(list(enumerate(fwd_nodes)))}
+            d = sorted((enc_key(k), pos.get(id(node))) for k, node in c.cache.items())
+            return [(enc_key(x.key), x.value) for x in fwd_nodes], bwd, d
         except Exception as e:  # noqa  - the object is not the structure the heap model describes
             self.broken = "%s: %s" % (type(e).__name__, e)
             return [], [], []
-
-    def dump(self):
-        out, i = [], 0
-        try:
-            while i < len(self.objs):          # sid() may append objects reachable only through stale pointers
-                o = self.objs[i]
-                out.append((i, enc_key(o.key), o.value, self.sid(o.prev), self.sid(o.next)))
-                i += 1
-        except Exception as e:  # noqa
-            self.broken = "%s: %s" % (type(e).__name__, e)
-        return out
 
 
 def eviction_order(c, present, cap):
@@ -104,11 +86,22 @@ def eviction_order(c, present, cap):
     for j in range(max(cap, 0) + len(present) + 1):
         if not remaining:
             break
-        c.set(("fresh", j), 0)
-        gone = [k for k in remaining if not c.has(k)]
+        try:
+            c.set(("fresh", j), 0)
+            gone = [k for k in remaining if not c.has(k)]
+        except Exception as e:  # noqa
+            gone_steps.append("raised %s" % type(e).__name__)
+            break
         gone_steps.append(gone)
         remaining = [k for k in remaining if k not in gone]
     return gone_steps
+
+
+def cached_keys(c, universe):
+    try:
+        return [k for k in universe if c.has(k)]
+    except Exception as e:  # noqa
+        return ["raised %s" % type(e).__name__]
 
 
 def run_impl_lru(cap, ops, universe=UNIVERSE, probe=True):
@@ -136,14 +129,16 @@ def run_impl_lru(cap, ops, universe=UNIVERSE, probe=True):
                 outs.append(("unit", None))
         except Exception as e:  # noqa
             outs.append(("err", type(e).__name__))
-        present.append([k for k in universe if c.has(k)])     # API only
+        present.append(cached_keys(c, universe))     # API only
         snaps.append(sn.snap())
-    keys = [k for k in universe if c.has(k)]
-    n = len(c.cache)
-    heap = sn.dump()
+    keys = cached_keys(c, universe)
+    try:
+        n = len(c.cache)
+    except Exception:  # noqa
+        n = -1
     order = eviction_order(c, keys, cap) if (probe and cap is not None) else None
     return {"outs": outs, "keys": keys, "n": n, "nontrivial": hit and evict, "present": present,
-            "snaps": snaps, "heap": heap, "order": order, "broken": sn.broken}
+            "snaps": snaps, "order": order, "broken": sn.broken}
 
 
 def ref_lru(cap, ops):
@@ -192,7 +187,7 @@ def lru_oracle(chk, cap, ops, im, ref):
     elif im["order"] is not None and im["order"] != ref["order"]:
         chk.fail("lru-eviction-order", "after the calls, inserting fresh keys does not evict the cached keys least-recently-used first",
                  dict(rep, evicted_by_each_fresh_insert=im["order"], expected=ref["order"]))
-    if cap is not None and any(len(p) > max(cap, 0) for p in im["present"]):
+    if cap is not None and any(len(p) > max(cap, 0) for p in im["present"] if not (p and str(p[0]).startswith("raised"))):
         chk.fail("lru-size", "more keys cached than maxsize", dict(rep, cached_after_each_call=im["present"]))
 
 
@@ -202,16 +197,14 @@ def enc_ops(ops):
 
 def lru_case_term(cap, ops, outs, keys, n):
     return "(%s, %s, %s, %s, %s)" % (copt(cap, cZ), clist([op_term(o) for o in enc_ops(ops)]),
-                                     clist([out_term(r) for r in outs]), clist([cN(k) for k in sorted(enc_key(k) for k in keys)]), cN(n))
+                                     clist([out_term(r) for r in outs]), clist([cN(k) for k in sorted(enc_key(k) for k in keys if not str(k).startswith("raised"))]), cN(max(n, 0)))
 
 
 def heap_case_term(cap, ops, im):
-    eops = enc_ops(ops)
-    snaps = ["(%s, %s, %s)" % (clist([cN(i) for i in f]), clist([cN(i) for i in b]),
-                               clist(["(%s, %s)" % (cN(k), cN(i)) for k, i in d])) for f, b, d in im["snaps"]]
-    objs = ["(%s, (%s, %s, %s, %s))" % (cN(i), cN(k), copt(v, cN), copt(p, cN), copt(n, cN)) for i, k, v, p, n in im["heap"]]
-    return "(%s, %s, %s, %s, %s)" % (copt(cap, cZ), clist([op_term(o) for o in eops]),
-                                     clist([out_term(r) for r in im["outs"]]), clist(snaps), clist(objs))
+    snaps = ["(%s, %s, %s)" % (clist(["(%s, %s)" % (cN(k), cN(v)) for k, v in f]), clist([cN(k) for k in b]),
+                               clist(["(%s, %s)" % (cN(k), copt(p, cN)) for k, p in d])) for f, b, d in im["snaps"]]
+    return "(%s, %s, %s, %s)" % (copt(cap, cZ), clist([op_term(o) for o in enc_ops(ops)]),
+                                 clist([out_term(r) for r in im["outs"]]), clist(snaps))
 
 
 def gen_lru_sequences(chk, maxlen, nkeys, caps, nrandom, randlen):
@@ -288,7 +281,12 @@ def run_impl_ct(cap, hist, keys):
                 ids.append(None)
                 continue
             src, cls, eng = keys[h[1]]
-            t = cached_template(src, template_cls=cls, engine=eng)
+            try:
+                t = cached_template(src, template_cls=cls, engine=eng)
+            except Exception as e:  # noqa
+                fails.append((i, {"call": i, "raised": "%s: %s" % (type(e).__name__, e)}))
+                ids.append(None)
+                continue
             alive.append(t)
             if id(t) not in first_seen:
                 first_seen[id(t)] = i
@@ -367,17 +365,26 @@ def component_render_oracle(chk, sizes, nseq):
                     out, eng_fail = [], []
                     for j, (ci, x, y) in enumerate(seq):
                         if j in other:
-                            t = cached_template(comps[ci].template, engine=E[other[j]])
-                            got = t.render(Context({"x": x, "y": y}))
+                            try:
+                                t = cached_template(comps[ci].template, engine=E[other[j]])
+                                got = t.render(Context({"x": x, "y": y}))
+                            except Exception as e:  # noqa
+                                got = "raised %s" % type(e).__name__
                             exp = Template(comps[ci].template, engine=E[other[j]]).render(Context({"x": x, "y": y}))
                             if got != exp:
                                 eng_fail.append({"position": j, "engine": other[j], "rendered": got, "fresh_compile_renders": exp})
-                        if not via_tag[j]:
-                            out.append(comps[ci].render(kwargs={"x": x, "y": y}, render_dependencies=False))
-                        else:
-                            t = Template("{%% component 'c18comp%d' x=x y=y / %%}" % ci)
-                            out.append(t.render(Context({"x": x, "y": y})))
-                    n = len(dc_cache.get_template_cache().cache)
+                        try:
+                            if not via_tag[j]:
+                                out.append(comps[ci].render(kwargs={"x": x, "y": y}, render_dependencies=False))
+                            else:
+                                t = Template("{%% component 'c18comp%d' x=x y=y / %%}" % ci)
+                                out.append(t.render(Context({"x": x, "y": y})))
+                        except Exception as e:  # noqa
+                            out.append("raised %s" % type(e).__name__)
+                    try:
+                        n = len(dc_cache.get_template_cache().cache)
+                    except Exception:  # noqa
+                        n = -1
                 exp = ["T%d:%s%s" % (ci, x, "+%s" % y if y else "") for (ci, x, y) in seq]
                 got = [re.sub(r"<!--.*?-->|<i[^>]*>|</i>", "", o) for o in out]
                 chk.count(("render", tuple(seq), size, tuple(sorted(other.items()))), len(set(c for c, _, _ in seq)) > max(size, 0), kind="render")
@@ -418,6 +425,13 @@ def run(tier, seed):
     chk.prove()
     thorough = tier == "thorough"
     caps = [None, 0, 1, 2, 3, -1]
+    import time
+    phases, t_last = {}, [time.time()]
+
+    def phase(name):
+        phases[name] = round(time.time() - t_last[0], 1)
+        t_last[0] = time.time()
+    chk.extra["phase_wall_s"] = phases
     # ---- 0. corpus (witnesses of fixed defects) through the direct oracles ----
     run_corpus(chk)
     # ---- 1. LRUCache API: direct oracle, list-level model, pointer-level model ----
@@ -425,21 +439,25 @@ def run(tier, seed):
     for cap, ops, kind in gen_lru_sequences(chk, 5 if thorough else 4, 3, caps, 20000 if thorough else 2000, 60 if thorough else 40):
         im = run_impl_lru(cap, ops)
         chk.count((cap, tuple(ops)), im["nontrivial"], kind=kind,
-                  sample={"maxsize": cap, "ops": ops, "outs": im["outs"], "node_ids_head_to_tail_after_each_call": [f for f, _, _ in im["snaps"]]}
+                  sample={"maxsize": cap, "ops": ops, "outs": im["outs"], "list_head_to_tail_after_each_call": [f for f, _, _ in im["snaps"]]}
                   if (im["nontrivial"] and kind == "random") else None)
         lru_oracle(chk, cap, ops, im, ref_lru(cap, ops))
         terms.append(lru_case_term(cap, ops, im["outs"], im["keys"], im["n"]))
         hterms.append(heap_case_term(cap, ops, im))
-        cases.append((cap, ops, im))
-    bad = C.coq_eval_cases("C18", "lru", IMPORTS, "lru_case", "check_lru", terms, shard=3000)
+        cases.append((cap, ops))
+    phase("lru_impl")
+    bad = U.coq_eval_cases("C18", "lru", IMPORTS, "lru_case", "check_lru", terms, shard=1500)
     for i in bad[:20]:
         chk.disagree("LRU model != LRUCache", {"kind": "lru", "maxsize": cases[i][0], "ops": cases[i][1]})
-    bad = C.coq_eval_cases("C18", "heap", IMPORTS_H, "heap_case", "check_heap", hterms, shard=2500)
+    phase("lru_coq")
+    bad = U.coq_eval_cases("C18", "heap", IMPORTS_H, "heap_case", "check_heap", hterms, shard=1500)
+    phase("heap_coq")
     for i in bad[:20]:
-        cap, ops, im = cases[i]
-        chk.disagree("pointer-level model (LRU/Heap.v) != the real LRUCache object: node order forwards/backwards, dict -> node, "
-                     "or some CacheNode's key/value/prev/next differ after a call",
-                     {"kind": "heap", "maxsize": cap, "ops": ops, "impl_snapshots_fwd_bwd_dict": im["snaps"], "impl_objects": im["heap"],
+        cap, ops = cases[i]
+        im = run_impl_lru(cap, ops, probe=False)
+        chk.disagree("pointer-level model (LRU/Heap.v) != the real LRUCache object after some call: (key, value) of the nodes walking next from "
+                     "head / keys walking prev from tail / which listed node each dict key maps to",
+                     {"kind": "heap", "maxsize": cap, "ops": ops, "impl_snapshots_fwd_bwd_dict": im["snaps"],
                       "impl_structure_unreadable": im["broken"]})
     chk.extra["heap_cases"] = len(hterms)
     del terms, hterms, cases
@@ -481,13 +499,16 @@ def run(tier, seed):
     for hi, hist in enumerate(ehists):
         for cap in (sizes if len(hist) <= 3 or hi % 3 == 0 else [sizes[hi % len(sizes)]]):
             ct_run(cap, hist, ekeys, enames, "cached_template_engines")
-    bad = C.coq_eval_cases("C18", "ct", IMPORTS, "ct_case", "check_ct", terms, shard=3000)
+    phase("ct_impl")
+    bad = U.coq_eval_cases("C18", "ct", IMPORTS, "ct_case", "check_ct", terms, shard=1500)
+    phase("ct_coq")
     for i in bad[:20]:
         chk.disagree("cached_template model != implementation (object identity pattern; the model's key is injective in "
                      "(template class, source, engine instance))",
                      {"kind": "ct", "size": cases[i][0], "history": cases[i][1], "impl_identity": cases[i][2], "keys": cases[i][3]})
     # ---- 3. component renders ----
     component_render_oracle(chk, [0, 1, 2, 128], 300 if thorough else 60)
+    phase("render")
     chk.assumptions = [
         "Template(...) is deterministic in (class, source, engine) apart from object identity (Django)",
         "keys are compared with Python == / hash on the key tuples; the model uses injective N codes (a distinct code per "
@@ -498,7 +519,7 @@ def run(tier, seed):
     return chk.finish(
         rule="LRU: every get/has/set/clear sequence up to length %d over 3 keys x maxsize in {None,0,1,2,3,-1} (exhaustive) + seeded random "
              "sequences up to length %d over up to 8 keys (+ the key \"\"), each run against the list-level model AND - pointer structure after "
-             "every call, all CacheNode objects at the end - against the heap model; cached_template: every compile/clear history up to length %d "
+             "every call: nodes forwards, backwards, dict -> node by position - against the heap model; cached_template: every compile/clear history up to length %d "
              "over 4 keys (+random over 6 keys incl. same source under another Template class / engine) and every history up to length %d over "
              "{implicit default engine, default engine object, Engine instance E1, Engine instance E2} x one source (+random) x sizes "
              "{None,0,1,2,3}; component renders over 6 inline templates x sizes {0,1,2,128} with the same template strings compiled for other "
@@ -510,7 +531,7 @@ def run(tier, seed):
                     "observed LRUCache / cached_template behaviour and with the real object's pointer structure; independent OrderedDict "
                     "reference (step by step), recency order read through the public API, and fresh-compile render comparison act as direct "
                     "property oracles.",
-        extra_trusted=["the reader of the real object's pointer structure (harness/c18.py Snapshotter: numbers CacheNode objects in creation order)",
+        extra_trusted=["the reader of the real object's pointer structure (harness/c18.py Snapshotter)",
                        "modelled, not verified: Django Template compilation; CPython object/dict semantics behind the heap model's ids and association lists"])
 
 
@@ -528,9 +549,8 @@ def replay(path):
         print("ops:", ops, "maxsize:", case["maxsize"])
         print("impl: outs", im["outs"], "cached after each call", im["present"], "evicted by fresh inserts", im["order"])
         print("ref:  outs", ref["outs"], "cached after each call", ref["present"], "evicted by fresh inserts", ref["order"])
-        print("impl pointer structure after each call (fwd ids, bwd ids, dict key->id):", im["snaps"])
-        print("impl objects (id, key+1, value, prev, next):", im["heap"])
-        bad = C.coq_eval_cases("C18", "replay", IMPORTS_H, "heap_case", "check_heap", [heap_case_term(case["maxsize"], ops, im)])
+        print("impl pointer structure after each call (fwd (key+1, value), bwd key+1, dict key+1 -> position in fwd):", im["snaps"])
+        bad = U.coq_eval_cases("C18", "replay", IMPORTS_H, "heap_case", "check_heap", [heap_case_term(case["maxsize"], ops, im)])
         print("heap model agrees with the real object:", not bad)
         return 1 if (bad or (im["outs"], im["present"], im["order"]) != (ref["outs"], ref["present"], ref["order"])) else 0
     if kind == "ct":
